@@ -354,9 +354,10 @@ JOBS['C08'] = Job('C08', mc='MC_Wire', tag='WIRE', drive='wire-run', trace='Trac
                   assumptions=WIRE_ASSUME)
 JOBS['C15'] = Job('C15', mc='MC_Wire', tag='WIRE', drive='wire-run', trace='Trace_Wire',
                   invariants=['RoundTrip', 'LenAnnounced', 'Normalises', 'Emit'],
-                  consts_quick={'Full': 'FALSE'}, consts_thorough={'Full': 'TRUE'}, extra=None,
+                  consts_quick={'Full': 'FALSE'}, consts_thorough={'Full': 'TRUE'}, extra=wire_extra,
                   describe='one case = one value of one bit field against all-zero and all-ones neighbours: the bytes must equal the specification encoder exactly, '
-                           'so a field can change only the bits it owns',
+                           'so a field can change only the bits it owns; or one byte string with every value of the control bytes (incl. reserved bits) through both decoders: '
+                           'only in-range values come out, the re-encoding has exactly the reserved bits cleared',
                   assumptions=WIRE_ASSUME)
 
 
